@@ -187,6 +187,11 @@ func (s *Sim) doEnv(a *envAction) {
 		s.bootReceiver(a.arg, a.n)
 	case "boot-sender":
 		s.bootSender(a.arg, a.n)
+		if v, ok := s.sc.Extra["second_crash_at"]; ok && a.n == 1 {
+			if f, ok := v.(float64); ok {
+				s.sendCrashAt, s.sendCrashInc, s.sendCrashLabel = int(f), 1, ""
+			}
+		}
 	case "write", "replace":
 		w.write(FileSpec{Name: a.Name, Size: a.Size, Seed: a.Seed, Age: a.Age}, true)
 	case "rewrite": // in place, non atomic
@@ -216,6 +221,7 @@ func (s *Sim) doEnv(a *envAction) {
 		s.corruptStage(a)
 	case "age-stage":
 		s.ageStage(a)
+	case "noop":
 	default:
 		if s.envExt != nil && s.envExt(a) {
 			return
